@@ -83,11 +83,19 @@ func gen(r *prng.R, f proto.Flags, emit func(proto.Case)) {
 	genSharing(r, f, emit)
 	genStress(r, f, emit)
 	genPublish(f, emit)
+	genExpire(r, f, emit)
+	genRetain(r, f, emit)
 }
 
 func exec(c proto.Case, o *proto.Out) []string {
 	if len(c.Ops) > 0 && (strings.HasPrefix(c.Ops[0], "script") || strings.HasPrefix(c.Ops[0], "run")) {
 		return execSharing(c, o)
+	}
+	if len(c.Ops) > 0 && strings.HasPrefix(c.Ops[0], "x") {
+		return execExpire(c, o)
+	}
+	if len(c.Ops) > 0 && strings.HasPrefix(c.Ops[0], "retain") {
+		return execRetain(c, o)
 	}
 	if len(c.Ops) > 0 && strings.HasPrefix(c.Ops[0], "stress-queue-publish") {
 		return execPublish(c, o)
